@@ -16,6 +16,7 @@ EXTENDS BuildPlanOps, TLC, Json
 CONSTANTS MaxFiles,     \* bound on files in the import graph
           MaxGroup,     \* bound on files per graph node (SCC size)
           KindSet,      \* which <<kind, requested>> choices a file has: "l" | "ls" | "lss" | "all"
+                        \* | "x" (Local, System and pytype_extensions.*) | "allx" (all + SysExt)
           DepOrders,    \* "any": every order of the out-edges; "mono": ascending or descending
           Jobs,         \* ninja -j
           Mode          \* "check": all phases; "structs": build phase only, export every structure;
@@ -90,6 +91,9 @@ KindReq ==
   CASE KindSet = "l" -> {<<"Local", FALSE>>, <<"Local", TRUE>>}
     [] KindSet = "ls" -> {<<"Local", FALSE>>, <<"Local", TRUE>>, <<"System", FALSE>>}
     [] KindSet = "lss" -> {<<"Local", FALSE>>, <<"Local", TRUE>>, <<"System", FALSE>>, <<"Stub", FALSE>>}
+    [] KindSet = "x" -> {<<"Local", FALSE>>, <<"Local", TRUE>>, <<"System", FALSE>>, <<"SysExt", FALSE>>}
+    [] KindSet = "allx" -> {<<"Local", FALSE>>, <<"Local", TRUE>>, <<"Direct", TRUE>>, <<"System", FALSE>>,
+                            <<"Builtin", FALSE>>, <<"Stub", FALSE>>, <<"SysExt", FALSE>>}
     [] OTHER -> {<<"Local", FALSE>>, <<"Local", TRUE>>, <<"Direct", TRUE>>, <<"System", FALSE>>,
                  <<"Builtin", FALSE>>, <<"Stub", FALSE>>}
 
@@ -133,6 +137,10 @@ NothingAfterLastRequested ==
 (* informational probe (expected to be violated when DepOrders = "any"): first-pass stubs     *)
 (* never leak out of their cycle                                                               *)
 NoFirstPassLeak == (phase = "exec" /\ started = {}) => FirstPassLeaks(S, P) = {}
+
+(* the family of directory names the driver must use (printed once per run of this module) *)
+ASSUME NAdv = 15 /\ \A x, y \in 1 .. NAdv : x # y => AdvNames[x] # AdvNames[y]
+ASSUME PrintT(<<"NAMES", ToJson(AdvTriples)>>)
 
 ExportInv ==
   (Mode \in {"structs", "sim"} /\ phase = "deps") => PrintT(<<"CASE", ToJson(S)>>)
